@@ -68,3 +68,55 @@ package policysync
 //@   requires p != nil && !c31Match
 //@   ghost at call chanclose: check old(ei.currentJoinUID) == leaveReq.JoinMetadata.JoinUID && arg0 == old(ei.output) ; c31Match = true
 //@   ghost at call handleLeave$1: check c31Match ==> (ei.output == nil && ei.currentJoinUID == 0) ; check (ei.currentJoinUID != 0 && ei.currentJoinUID == leaveReq.JoinMetadata.JoinUID) ==> c31Match
+
+//@ -- "sends nothing to a workload after it leaves": the endpoints that later updates are fanned out to are exactly
+//@ -- those with a joined client (an output channel)
+//@ func (*Processor).updateableEndpoints
+//@   property C31
+//@   option safety assume
+//@   requires p != nil
+//@   ensures forall i int :: 0 <= i && i < len(res) ==> res[i] != nil && res[i].output != nil
+//@   loop 1 invariant forall i int :: 0 <= i && i < len(out) ==> out[i] != nil && out[i].output != nil
+
+//@ -- fan-out of a policy / profile update: a workload is sent the update only if it uses that very policy /
+//@ -- profile, bracketed by the IP sets it newly needs (before) and no longer needs (after), and it is recorded as sent
+//@ ghost c31Pre bool
+//@ ghost c31Match bool
+//@ ghost c31Sent bool
+//@ func (*Processor).handleActivePolicyUpdate$1
+//@   property C31
+//@   option safety off
+//@   option stable **EndpointInfo, (*EndpointInfo).output
+//@   requires !c31Match && !c31Pre && !c31Sent
+//@   ghost at call getIPSetsSync: check other == *pId ; c31Match = true
+//@   ghost at call doAdd: check c31Match && !c31Sent ; c31Pre = true
+//@   ghost at call chansend: check c31Pre && arg0 == (*ei).output ; c31Sent = true
+//@   ghost at call doDel: check c31Sent
+//@   ensures res == c31Sent && res == c31Match
+//@ func (*Processor).handleActiveProfileUpdate$1
+//@   property C31
+//@   option safety off
+//@   option stable **EndpointInfo, (*EndpointInfo).output
+//@   requires !c31Match && !c31Pre && !c31Sent
+//@   ghost at call getIPSetsSync: check other == *pId ; c31Match = true
+//@   ghost at call doAdd: check c31Match && !c31Sent ; c31Pre = true
+//@   ghost at call chansend: check c31Pre && arg0 == (*ei).output ; c31Sent = true
+//@   ghost at call doDel: check c31Sent
+//@   ensures res == c31Sent && res == c31Match
+
+//@ -- fan-out of IP set updates: only to workloads whose policies or profiles reference the set
+//@ ghost c31Ref bool
+//@ func (*Processor).handleIPSetUpdate
+//@   property C31
+//@   option safety off
+//@   option callpre off
+//@   option stable (*EndpointInfo).output
+//@   ghost at call referencesIPSet: check arg2 == id ; c31Ref = res
+//@   ghost at call chansend: check c31Ref && arg0 == ei.output
+//@ func (*Processor).handleIPSetDeltaUpdate
+//@   property C31
+//@   option safety off
+//@   option callpre off
+//@   option stable (*EndpointInfo).output
+//@   ghost at call referencesIPSet: check arg2 == id ; c31Ref = res
+//@   ghost at call chansend: check c31Ref && arg0 == ei.output
